@@ -173,9 +173,13 @@ void Rpc::onRecvRespond(int id, int errcode, const Json &js_result)
     RECORD_SCOPE();
     auto iter = request_callback_.find(id);
     if (iter != request_callback_.end()) {
-        if (iter->second)
-            iter->second(errcode, js_result);
+        //! 注意：要先从表中移除，再执行回调。
+        //! 回调中可能再发请求（对表的增删会令iter失效），回调期间也可能再次收到
+        //! 同一id的回复（此时该请求已完成，不应再次回调）
+        RequestCallback cb(std::move(iter->second));
         request_callback_.erase(iter);
+        if (cb)
+            cb(errcode, js_result);
     }
 }
 
@@ -183,9 +187,11 @@ void Rpc::onRequestTimeout(int id)
 {
     auto iter = request_callback_.find(id);
     if (iter != request_callback_.end()) {
-        if (iter->second)
-            iter->second(ErrorCode::kRequestTimeout, Json());
+        //! 同 onRecvRespond()，先移除再回调
+        RequestCallback cb(std::move(iter->second));
         request_callback_.erase(iter);
+        if (cb)
+            cb(ErrorCode::kRequestTimeout, Json());
     }
 }
 
